@@ -167,6 +167,12 @@ theorem rb_linked_is_reverse_inorder (t : Tree Int) : toLinkedDesc t [] = (toLis
   simpa using toLinkedDesc_eq t []
 
 example : WF (.nil : Tree Int) := wf_nil
+-- a non-trivial tree satisfying the hypothesis of `rb_insert`
+example : ∃ t, insertAll (.nil : Tree Int) [1, 2, 3] = some t ∧ WF t ∧ toList t = [1, 2, 3] := by
+  obtain ⟨t, h1, h2, _⟩ := rb_history [1, 2, 3]
+  have h : (insertAll (.nil : Tree Int) [1, 2, 3]).map toList = some [1, 2, 3] := by decide
+  rw [h1] at h
+  exact ⟨t, h1, h2, by simpa using h⟩
 example : (insertAll (.nil : Tree Int) [5, 3, 8, 1, 4, 7, 9, 2, 6, 3]).map toList = some [1, 2, 3, 4, 5, 6, 7, 8, 9] := by decide
 end RB
 
@@ -212,6 +218,12 @@ theorem stack_convert2String (s : Stack.Stack UInt8) (h : (0 : UInt8) ∉ s.data
     convert2String s = s.data.toList := convert2String_eq s h
 
 example : Stack.Inv (create : Stack.Stack Int) := inv_create
+-- the hypothesis of `stack_shuffle` is satisfiable (here with the LCG generator, which the kernel can run)
+example : (shuffle 100 (EaselModel.Random.Rng.create .fast 7) ({ data := #[1, 2, 3, 4], nalloc := 128 } : Stack.Stack Nat)).map (·.1.data)
+    = some #[3, 4, 1, 2] := by decide +kernel
+-- discards on a concrete stack
+example : (discardSelected ({ data := #[1, 2, 3, 4, 5], nalloc := 128 } : Stack.Stack Nat) (fun x => x % 2 == 0)).map (·.data)
+    = some #[1, 3, 5] := by decide
 example : (pushAll (create : Stack.Stack Nat) [1, 2, 3]).map popAll = some [3, 2, 1] := by decide
 end StackS
 
